@@ -117,6 +117,9 @@ def build(case):
     if has_x(kind):
         rar["sample_size_omega"] = case["sampX"]
         rar["selected_sample_size_omega"] = case["selX"]
+    if case["seed"] % 2 == 1:
+        # the user's dictionary in another insertion order (space entries first, schedule last)
+        rar = {k: rar[k] for k in sorted(rar, key=lambda k: (not k.endswith("omega"), k))}
     tmin, tmax = float(case["tmin"]), float(case["tmax"])
     xmin = tuple(float(v) for v in case["xmin"])
     xmax = tuple(float(v) for v in case["xmax"])
